@@ -22,22 +22,23 @@ func init() { Registry["C01"] = Check{Level: "model_checking", Fn: runC01} }
 
 func runC01(r *ev.Run) {
 	r.Rule = "(i) every T1 table b-tree shape (<=3 cells/leaf, <=3 children/interior, depth<=4, n<=bound) x 3 rowid sets x 2 physical layouts, and every T2 (WITHOUT ROWID) tree shape, x every ordered column list of length 0..3 over the columns, rowid/oid/_rowid_ and an unknown name; (ii) T1+T2 on every page size with inline, 2-page and multi-page payloads; (iii) SQLite-written files (inserts to depth>=3, deletes, updates, VACUUM, auto_vacuum, ALTER TABLE ADD COLUMN) compared with SQLite after every statement. non-trivial = image with a multi-level tree, spilled payload, short rows or non-sequential rowids"
-	b := quickBounds(r)
-	r.Set("bounds", fmt.Sprintf("%+v", b))
+	r.Set("bounds", fmt.Sprintf("%+v", allBounds(r)))
 	maxList := 3
 	t1names := []string{"a", "b", "c", "d", "e", "rowid", "OID", "_rowid_", "nosuch"}
 	t2names := []string{"a", "b", "c", "d", "rowid", "nosuch"}
 	t1lists := columnLists(t1names, maxList)
 	t2lists := columnLists(t2names, maxList)
 
-	forTableShapes(r, b, func(si *ShapeImage) {
-		c01Image(r, si, "t1", t1lists)
-	})
-	forIndexShapes(r, b, func(si *ShapeImage) {
-		if si.Object == "t2" {
-			c01Image(r, si, "t2", t2lists)
-		}
-	})
+	for _, b := range allBounds(r) {
+		forTableShapes(r, b, func(si *ShapeImage) {
+			c01Image(r, si, "t1", t1lists)
+		})
+		forIndexShapes(r, b, func(si *ShapeImage) {
+			if si.Object == "t2" {
+				c01Image(r, si, "t2", t2lists)
+			}
+		})
+	}
 
 	// (ii) page size family
 	bigs := []int{0, 1, 2}
